@@ -63,6 +63,17 @@ def values(cname):
         if len(o.data) != 1:
             raise HarnessError('factory for %s gave %d values' % (cname, len(o.data)))
         vals.append(np.array(o.data[0], dtype=float))
+    if cname in ('SO2', 'SE2', 'SO3', 'SE3'):
+        # tag 2 is a value as the group operations themselves produce it after a few dozen compositions: a member to ~1e-14, i.e. just
+        # outside the 100 eps band of the constructor's validation (which the operations never apply to their own results)
+        o = mk(2)
+        p = ((((o ** 3) ** 3) ** 3) ** 3) * ((((o.inv() ** 3) ** 3) ** 3) ** 2) ** 3 * (((o.inv() ** 3) ** 3) ** 3) * o
+        v = np.array(p.data[0], dtype=float)
+        n = v.shape[0] - (1 if cname[:2] == 'SE' else 0)
+        d = float(np.abs(v[:n, :n] @ v[:n, :n].T - np.eye(n)).max())
+        if not (1e-15 < d < 1e-10):
+            raise HarnessError('drifted value of %s is %.3g off orthonormal' % (cname, d))
+        vals[2] = v
     for i in range(4):
         for j in range(i):
             if vals[i].shape != vals[j].shape or np.array_equal(vals[i], vals[j]):
@@ -480,6 +491,8 @@ def check_constructors(ctx, m, maxlen, ntags):
                 continue
             if form == 'arrlist' and n == 0:
                 continue
+            if form == 'arrlist' and 2 in tags and cname in ('SO2', 'SE2', 'SO3', 'SE3'):
+                continue        # raw arrays are validated by the constructor (C07); the drifted value is legitimately outside its band
             ctx.case(cid, trivial=(n == 0))
             if form == 'objlist':
                 arg = [m.build((t,)) for t in tags]
